@@ -3,10 +3,28 @@ type nat =
 | O
 | S of nat
 
+(** val fst : ('a1 * 'a2) -> 'a1 **)
+
+let fst = function
+| (x, _) -> x
+
 (** val snd : ('a1 * 'a2) -> 'a2 **)
 
 let snd = function
 | (_, y) -> y
+
+(** val length : 'a1 list -> nat **)
+
+let rec length = function
+| [] -> O
+| _ :: l' -> S (length l')
+
+(** val app : 'a1 list -> 'a1 list -> 'a1 list **)
+
+let rec app l m =
+  match l with
+  | [] -> m
+  | a :: l1 -> a :: (app l1 m)
 
 type comparison =
 | Eq
@@ -38,6 +56,20 @@ type z =
 | Z0
 | Zpos of positive
 | Zneg of positive
+
+module Nat =
+ struct
+  (** val eqb : nat -> nat -> bool **)
+
+  let rec eqb n m =
+    match n with
+    | O -> (match m with
+            | O -> true
+            | S _ -> false)
+    | S n' -> (match m with
+               | O -> false
+               | S m' -> eqb n' m')
+ end
 
 module Pos =
  struct
@@ -570,6 +602,16 @@ module Z =
     abs (mul a (div b (gcd a b)))
  end
 
+(** val nth_error : 'a1 list -> nat -> 'a1 option **)
+
+let rec nth_error l = function
+| O -> (match l with
+        | [] -> None
+        | x :: _ -> Some x)
+| S n0 -> (match l with
+           | [] -> None
+           | _ :: l0 -> nth_error l0 n0)
+
 (** val map : ('a1 -> 'a2) -> 'a1 list -> 'a2 list **)
 
 let rec map f = function
@@ -588,6 +630,22 @@ let rec fold_left f l a0 =
 let rec forallb f = function
 | [] -> true
 | a :: l0 -> (&&) (f a) (forallb f l0)
+
+(** val combine : 'a1 list -> 'a2 list -> ('a1 * 'a2) list **)
+
+let rec combine l l' =
+  match l with
+  | [] -> []
+  | x :: tl ->
+    (match l' with
+     | [] -> []
+     | y :: tl' -> (x, y) :: (combine tl tl'))
+
+(** val seq : nat -> nat -> nat list **)
+
+let rec seq start = function
+| O -> []
+| S len0 -> start :: (seq (S start) len0)
 
 type q = { qnum : z; qden : positive }
 
@@ -662,6 +720,73 @@ let smt_mod n d =
 let divmod_def n d q0 r =
   (&&) ((&&) (Z.eqb n (Z.add (Z.mul d q0) r)) (Z.leb Z0 r))
     (Z.leb r (Z.sub (Z.abs d) (Zpos XH)))
+
+type dm_kind =
+| KDiv
+| KMod
+
+type dm_app = (dm_kind * nat) * z
+
+(** val key_eqb : (nat * z) -> (nat * z) -> bool **)
+
+let key_eqb a b =
+  (&&) (Nat.eqb (fst a) (fst b)) (Z.eqb (snd a) (snd b))
+
+(** val cache_find : (nat * z) list -> (nat * z) -> nat -> nat option **)
+
+let rec cache_find defs k i =
+  match defs with
+  | [] -> None
+  | d :: r -> if key_eqb d k then Some i else cache_find r k (S i)
+
+(** val rw_apps :
+    (nat * z) list -> dm_app list -> (nat * z) list * (nat * dm_kind) list **)
+
+let rec rw_apps defs = function
+| [] -> (defs, [])
+| d0 :: r ->
+  let (p, d) = d0 in
+  let (k, n) = p in
+  (match cache_find defs (n, d) O with
+   | Some i -> let (defs', vs) = rw_apps defs r in (defs', ((i, k) :: vs))
+   | None ->
+     let (defs', vs) = rw_apps (app defs ((n, d) :: [])) r in
+     (defs', (((length defs), k) :: vs)))
+
+(** val app_val : (nat -> z) -> dm_app -> z **)
+
+let app_val rho = function
+| (p, d) ->
+  let (k, n) = p in
+  (match k with
+   | KDiv -> smt_div (rho n) d
+   | KMod -> smt_mod (rho n) d)
+
+(** val aux_val : (nat -> z * z) -> (nat * dm_kind) -> z **)
+
+let aux_val sigma v =
+  match snd v with
+  | KDiv -> fst (sigma (fst v))
+  | KMod -> snd (sigma (fst v))
+
+(** val rewritten_holds :
+    (nat -> z) -> (nat -> z * z) -> dm_app list -> bool **)
+
+let rewritten_holds rho sigma apps =
+  let (defs, vs) = rw_apps [] apps in
+  (&&)
+    (forallb (fun p -> Z.eqb (app_val rho (fst p)) (aux_val sigma (snd p)))
+      (combine apps vs))
+    (forallb (fun p ->
+      divmod_def (rho (fst (snd p))) (snd (snd p)) (fst (sigma (fst p)))
+        (snd (sigma (fst p)))) (combine (seq O (length defs)) defs))
+
+(** val canon_sigma : (nat -> z) -> (nat * z) list -> nat -> z * z **)
+
+let canon_sigma rho defs i =
+  match nth_error defs i with
+  | Some p -> let (n, d) = p in ((smt_div (rho n) d), (smt_mod (rho n) d))
+  | None -> (Z0, Z0)
 
 type bound_pair = { bp_upper : z; bp_lower : z }
 
